@@ -73,6 +73,10 @@ def ast_build(a: t.Any) -> t.Any:
         return t.Optional[ast_build(a[1])]
     if k == 'dict':
         return t.Dict[str, ast_build(a[1])]
+    if k == 'slit':
+        return {'k': ast_build(a[1])}        # a struct type written as a mapping of field types
+    if k == 'tlit':
+        return (ast_build(a[1]), ast_build(a[2]))    # a tuple type written as a tuple of types
     return t.Tuple[ast_build(a[1]), ast_build(a[2])]
 
 
@@ -107,6 +111,10 @@ def ast_of(ty: t.Any) -> t.Any:
             return ('c', n)
     if isinstance(ty, type) and ty.__dict__.get('__origin__') is (_BOX[0] if _BOX else None) and _BOX:
         return ('gen', ast_of(next(iter(ty.__dict__['__pane_boundvars__'].values()))))
+    if isinstance(ty, dict) and list(ty) == ['k']:
+        return ('slit', ast_of(ty['k']))
+    if isinstance(ty, tuple) and len(ty) == 2:
+        return ('tlit', ast_of(ty[0]), ast_of(ty[1]))
     o, args = t.get_origin(ty), t.get_args(ty)
     if o is list:
         return ('list', ast_of(args[0]))
@@ -131,6 +139,10 @@ def ast_render(a: t.Any) -> str:
         return f"Optional[{ast_render(a[1])}]"
     if k == 'dict':
         return f"Dict[str, {ast_render(a[1])}]"
+    if k == 'slit':
+        return f"{{'k': {ast_render(a[1])}}}"
+    if k == 'tlit':
+        return f"({ast_render(a[1])}, {ast_render(a[2])})"
     return f"Tuple[{ast_render(a[1])}, {ast_render(a[2])}]"
 
 
@@ -149,7 +161,7 @@ def ast_value(a: t.Any, good: bool) -> t.Tuple[bool, t.Any]:
         return (d, [x])
     if k == 'opt':
         return ast_value(a[1], good)
-    if k == 'dict':
+    if k in ('dict', 'slit'):
         (d, x) = ast_value(a[1], good)
         return (d, {'k': x})
     (d1, x1) = ast_value(a[1], True)
@@ -181,7 +193,8 @@ def type_asts(vars_: t.Sequence[str]) -> st.SearchStrategy[t.Any]:
     leaf = st.one_of(leaf_c, st.sampled_from(list(vars_)).map(lambda n: ('v', n))) if vars_ else leaf_c
     gen = st.tuples(st.just('gen'), leaf)
     return st.one_of(leaf, leaf, st.tuples(st.just('list'), leaf), st.tuples(st.just('opt'), leaf), st.tuples(st.just('dict'), leaf),
-                     st.tuples(st.just('tup'), leaf, leaf), gen, st.tuples(st.just('list'), gen))
+                     st.tuples(st.just('tup'), leaf, leaf), gen, st.tuples(st.just('list'), gen),
+                     st.tuples(st.just('slit'), leaf), st.tuples(st.just('tlit'), leaf, leaf))
 
 
 FIELD_POOL = ['a', 'b', 'c', 'd', 'e', 'f_long', 'g_two', 'h']
@@ -524,7 +537,7 @@ def check(prog: t.Any, ctx: Ctx) -> None:
             return [expect_val(a[1], v[0])]
         if k_ == 'opt':
             return expect_val(a[1], v)
-        if k_ == 'dict':
+        if k_ in ('dict', 'slit'):
             return {'k': expect_val(a[1], v['k'])}
         return (expect_val(a[1], v[0]), expect_val(a[2], v[1]))
 
